@@ -323,3 +323,5 @@ func (t *Term) def() string {
 	sb.WriteString("))")
 	return sb.String()
 }
+
+func pow2(k int) *big.Int { return new(big.Int).Lsh(big.NewInt(1), uint(k)) }
